@@ -1,6 +1,7 @@
 package main
 
 import (
+	"regexp"
 	"fmt"
 	"go/ast"
 	"go/importer"
@@ -113,10 +114,16 @@ func (td *typeDecls) index() {
 	}
 	// identities established on this path
 	for _, d := range td.rs.Run.Decisions {
-		if !strings.HasPrefix(d.Sym, "B:types.Identical(") || d.Choice != 0 {
+		pre := ""
+		for _, p := range []string{"B:types.Identical(", "B:types.AssignableTo("} {
+			if strings.HasPrefix(d.Sym, p) {
+				pre = p
+			}
+		}
+		if pre == "" || d.Choice != 0 {
 			continue
 		}
-		args := splitTop(strings.TrimSuffix(strings.TrimPrefix(d.Sym, "B:types.Identical("), ")"))
+		args := splitTop(strings.TrimSuffix(strings.TrimPrefix(d.Sym, pre), ")"))
 		if len(args) != 2 {
 			continue
 		}
@@ -124,7 +131,7 @@ func (td *typeDecls) index() {
 			a, b := td.find(pair[0]), td.find(pair[1])
 			if a != b {
 				// keep the value the generator learnt more about as the representative
-				if opaqueInfo(b) > opaqueInfo(a) {
+				if opaqueInfo(b) > opaqueInfo(a) || typTableRe.MatchString(b.Origin) {
 					a, b = b, a
 				}
 				td.parent[b] = a
@@ -136,6 +143,13 @@ func (td *typeDecls) index() {
 // matchOrigins resolves two origin strings (possibly in tied `[*]` form) to pairs of opaque values.
 func (td *typeDecls) matchOrigins(a, b string) [][2]*VOpaque {
 	var out [][2]*VOpaque
+	for _, o := range []string{a, b} {
+		if typTableRe.MatchString(o) {
+			if _, ok := td.byOrigin[o]; !ok {
+				td.byOrigin[o] = &VOpaque{Origin: o}
+			}
+		}
+	}
 	if x, ok := td.byOrigin[a]; ok {
 		if y, ok := td.byOrigin[b]; ok {
 			return [][2]*VOpaque{{x, y}}
@@ -231,6 +245,21 @@ func (td *typeDecls) nameFor(v Value, depth int) string {
 	if n, ok := td.byVal[o]; ok {
 		return n
 	}
+	if m := typTableRe.FindStringSubmatch(o.Origin); m != nil {
+		n := 0
+		fmt.Sscanf(m[1], "%d", &n)
+		if n > 0 && n < len(types.Typ) {
+			nm := types.Typ[n].Name()
+			switch {
+			case nm == "Pointer":
+				td.useUnsafe = true
+				return "unsafe.Pointer"
+			case strings.HasPrefix(nm, "untyped "):
+				return goBasic["types.Untyped"+strings.Title(strings.TrimPrefix(nm, "untyped "))]
+			}
+			return nm
+		}
+	}
 	// a type built by the generator itself (types.NewPointer(T), NewSlice(T), …) is the literal composite type
 	if o.built {
 		sub := func(attr string) string { return td.nameFor(o.attrs[attr], depth+1) }
@@ -241,12 +270,73 @@ func (td *typeDecls) nameFor(v Value, depth int) string {
 			return "[]" + sub("Elem")
 		case "*types.Map":
 			return "map[" + sub("Key") + "]" + sub("Elem")
+		case "*types.Struct":
+			if fl, ok := o.attrs["#fields"].(*VList); ok {
+				var fs []string
+				for i, f := range fl.Elems {
+					fo, _ := f.(*VOpaque)
+					fname, ftype := fmt.Sprintf("F%d", i), "struct{}"
+					if fo != nil {
+						if nm, ok := fo.attrs["Name"].(VStr); ok {
+							fname = td.renderName(nm)
+						}
+						ftype = td.nameFor(fo.attrs["Type"], depth+1)
+					}
+					fs = append(fs, fname+" "+ftype)
+				}
+				return "struct{ " + strings.Join(fs, "; ") + " }"
+			}
 		}
 	}
 	name := td.freshName()
 	td.byVal[o] = name
 	td.declare(name, o, depth)
 	return name
+}
+
+var typTableRe = regexp.MustCompile(`^qual:types\.Typ\[(\d+)\]$`)
+
+// compOf: the declared name of a component (Elem, Key) of a type value.
+func (td *typeDecls) compOf(v Value, attr string) string {
+	o, ok := v.(*VOpaque)
+	if !ok || o == nil {
+		return "struct{}"
+	}
+	o = td.find(o)
+	u := underlyingVal(o)
+	if u == nil {
+		u = o
+	}
+	if a, ok := u.attrs[attr]; ok {
+		return td.nameFor(a, 1)
+	}
+	if td.freshAttr == nil {
+		td.freshAttr = map[*VOpaque]map[string]*VOpaque{}
+	}
+	if td.freshAttr[u] == nil {
+		td.freshAttr[u] = map[string]*VOpaque{}
+	}
+	if td.freshAttr[u][attr] == nil {
+		td.freshAttr[u][attr] = &VOpaque{Origin: u.Origin + "." + attr + "()"}
+	}
+	return td.nameFor(td.freshAttr[u][attr], 1)
+}
+
+// renderName renders a name template with the run's placeholder identifiers.
+func (td *typeDecls) renderName(v VStr) string {
+	out := ""
+	for _, p := range v.Parts {
+		if p.Hole != nil {
+			if id, ok := td.nameID[p.Hole.Origin]; ok {
+				out += id
+			} else {
+				out += p.Hole.ID
+			}
+		} else {
+			out += p.Lit
+		}
+	}
+	return out
 }
 
 var goBasic = map[string]string{
@@ -360,6 +450,14 @@ func (td *typeDecls) declare(name string, o *VOpaque, depth int) {
 		}
 		return strings.Join(ss, ", ")
 	}
+	if m := typTableRe.FindStringSubmatch(o.Origin); m != nil {
+		td.byVal[o] = "" // force the literal path of nameFor
+		delete(td.byVal, o)
+		lit := td.nameFor(o, depth)
+		td.byVal[o] = name
+		td.decls = append(td.decls, fmt.Sprintf("type %s = %s", name, lit))
+		return
+	}
 	methodsOK := true // can this declared type carry methods?
 	// a type the run established NOT to be a defined type (identical to its own Underlying(), or a failed *types.Named
 	// assertion) is declared as an alias of the literal type; otherwise as a defined type
@@ -372,6 +470,9 @@ func (td *typeDecls) declare(name string, o *VOpaque, depth int) {
 	}
 	if strings.HasSuffix(o.Origin, ".Underlying()") {
 		alias = true // the result of Underlying() is never a defined type
+	}
+	if o.Kind != "" && o.Kind != "*types.Named" && o.Kind != "*types.Alias" && o.Kind != "other" {
+		alias = true // the value itself (not its Underlying()) was refined to a literal kind
 	}
 	// a successful assertion of the type itself (not its Underlying()) to a literal kind: it is that literal type
 	for _, k := range []string{"Basic", "Pointer", "Slice", "Array", "Map", "Struct", "Signature", "Chan", "Interface"} {
@@ -426,6 +527,15 @@ func (td *typeDecls) declare(name string, o *VOpaque, depth int) {
 		emit(fmt.Sprintf("func(%s) %s", tuple("Params", false), res))
 	case "*types.Basic":
 		b := td.basicName(u)
+		if b == "" {
+			// the kind may have been examined on the other of the two values (the type itself / its Underlying())
+			if uu, ok := o.attrs["Underlying"].(*VOpaque); ok && uu != u {
+				b = td.basicName(uu)
+			}
+			if b == "" && u != o {
+				b = td.basicName(o)
+			}
+		}
 		switch {
 		case b == "":
 			b = "int"
@@ -528,6 +638,16 @@ func typecheckResid(rs *Resid, funcSig func(h *Hole, td *typeDecls) string) ([]s
 }
 
 func typecheckResidSrc(rs *Resid, funcSig func(h *Hole, td *typeDecls) string) ([]string, bool, string) {
+	return typecheckResidOpt(rs, funcSig, false)
+}
+
+// typedSource: the residual with its declarations, without checking it.
+func typedSource(rs *Resid, funcSig func(h *Hole, td *typeDecls) string) (string, bool) {
+	_, ok, src := typecheckResidOpt(rs, funcSig, true)
+	return src, ok
+}
+
+func typecheckResidOpt(rs *Resid, funcSig func(h *Hole, td *typeDecls) string, srcOnly bool) ([]string, bool, string) {
 	if rs.Err != nil {
 		return nil, false, ""
 	}
@@ -603,6 +723,9 @@ func typecheckResidSrc(rs *Resid, funcSig func(h *Hole, td *typeDecls) string) (
 		imports = append(imports, `import "unsafe"`)
 	}
 	src := strings.Replace(rs.Run.Text, "package p\n", "package p\n"+strings.Join(imports, "\n")+"\n", 1) + "\n" + strings.Join(td.decls, "\n") + "\n"
+	if srcOnly {
+		return nil, true, src
+	}
 	fset := token.NewFileSet()
 	f, err := parser.ParseFile(fset, "typed.go", src, 0)
 	if err != nil {
@@ -620,6 +743,12 @@ func typecheckResidSrc(rs *Resid, funcSig func(h *Hole, td *typeDecls) string) (
 		}
 	}}
 	conf.Check("p", fset, []*ast.File{f}, nil)
+	for _, e := range errs {
+		if strings.Contains(e, "invalid map key type") {
+			// the oracle chose a key type Go does not allow as a map key: no such input exists
+			return nil, false, ""
+		}
+	}
 	return errs, true, src
 }
 
@@ -655,11 +784,29 @@ func docSig(h *Hole, td *typeDecls) string {
 	case "sort":
 		return fmt.Sprintf("(l %s) %s", arg(0), arg(0))
 	case "contains":
+		if len(h.Args) == 1 {
+			return fmt.Sprintf("(l %s, item %s) bool", arg(0), td.compOf(h.Args[0], "Elem"))
+		}
 		return fmt.Sprintf("(l %s, item %s) bool", arg(0), arg(1))
 	case "min", "max":
 		if len(h.Args) == 2 {
 			return fmt.Sprintf("(a %s, b %s) %s", arg(0), arg(1), arg(1))
 		}
+	case "keys":
+		return fmt.Sprintf("(m %s) []%s", arg(0), td.compOf(h.Args[0], "Key"))
+	case "set":
+		return fmt.Sprintf("(l %s) map[%s]struct{}", arg(0), td.compOf(h.Args[0], "Elem"))
+	case "unique":
+		return fmt.Sprintf("(l %s) %s", arg(0), arg(0))
+	case "gostring":
+		return fmt.Sprintf("(v %s) string", arg(0))
+	case "tuple":
+		var ps, rs []string
+		for i := range h.Args {
+			ps = append(ps, fmt.Sprintf("v%d %s", i, arg(i)))
+			rs = append(rs, arg(i))
+		}
+		return fmt.Sprintf("(%s) func() (%s)", strings.Join(ps, ", "), strings.Join(rs, ", "))
 	}
 	return ""
 }
@@ -707,7 +854,21 @@ func cmdTyped(args []string) {
 				k := holeRe.ReplaceAllString(stripLine(errs[0]), "_")
 				hist[k]++
 				if ex[k] == "" {
-					ex[k] = fmt.Sprintf("script=%v\n%s\n%s\nerrors: %s", rs.Run.Script, rs.Run.describe(), src, strings.Join(errs, "\n        "))
+					leg := ""
+					var hids []string
+					for id := range rs.Run.Holes {
+						hids = append(hids, id)
+					}
+					sort.Strings(hids)
+					for _, id := range hids {
+						h := rs.Run.Holes[id]
+						leg += fmt.Sprintf("  %s = %s %s", id, h.Kind, h.Origin)
+						for _, a := range h.Args {
+							leg += " arg:" + origin(a)
+						}
+						leg += "\n"
+					}
+					ex[k] = fmt.Sprintf("script=%v\n%s\n%s%s\nerrors: %s", rs.Run.Script, rs.Run.describe(), leg, src, strings.Join(errs, "\n        "))
 				}
 			}
 		}
@@ -724,4 +885,94 @@ func cmdTyped(args []string) {
 			}
 		}
 	}
+}
+
+// rR4: typed residuals. Every accepted residual whose holes can be declared faithfully is type-checked with go/types
+// against declarations built from what the abstract path established (kinds, exact basic kinds, struct fields, named /
+// unnamed, identities, methods found by the method-lookup predicates, documented helper signatures). An error means: for an
+// input of that shape goderive exits 0 and derived.gen.go does not compile.
+func rR4(c *Ctx, plugins ...string) {
+	for _, p := range plugins {
+		if p == "hash" {
+			// the result type of the Hash method that hasHashMethod accepts comes from the tabulation of that predicate
+			if _, done := methodResultKinds["hash.hasHashMethod"]; !done {
+				sub := &Ctx{Repo: c.Repo, Rep: newReport(c.Rep.Property, c.Rep.Tier), Tier: c.Tier, R: c.R}
+				g9Methods(sub, methodSpec{"hash.hasHashMethod", "Hash", 0, 1, types.Invalid})
+			}
+			hashMethodResult = "uint64"
+			if ks := methodResultKinds["hash.hasHashMethod"]; len(ks) == 1 && ks[0] > 0 && ks[0] < len(types.Typ) {
+				hashMethodResult = types.Typ[ks[0]].Name()
+			}
+		}
+		typed, skipped := 0, 0
+		seen := map[string]bool{}
+		// runs whose text equals an earlier run's (Dup) may still differ in the types behind the holes (e.g. the same
+		// `uint64(x)` for every integer kind and for unsafe.Pointer): they are typed too, once per distinct typed source
+		srcSeen := map[string]bool{}
+		for _, run := range c.R.Runs(p) {
+			if run.Outcome != "accepted" {
+				continue
+			}
+			rs := parseResid(run)
+			if rs.Err != nil {
+				continue
+			}
+			src, ok := typedSource(rs, docSig)
+			if !ok {
+				skipped++
+				continue
+			}
+			if srcSeen[src] {
+				continue
+			}
+			srcSeen[src] = true
+			errs, done := typecheckResid(rs, docSig)
+			if !done {
+				skipped++
+				continue
+			}
+			typed++
+			if len(errs) == 0 {
+				c.Rep.pass("R4")
+				continue
+			}
+			line := 0
+			fmt.Sscanf(errs[0], "%d:", &line)
+			gf, where := "?", []string{}
+			if line > 0 && line-1 < len(rs.Run.LinePos) {
+				gf = c.Repo.funcAt(rs.Run.LinePos[line-1])
+				where = append(where, rs.Run.where(c.Repo, line))
+			}
+			msg := stripLine(errs[0])
+			key := fmt.Sprintf("R4|%s|%s|%s", p, gf, r4Norm(msg))
+			if seen[key] {
+				continue // same defect on another path
+			}
+			seen[key] = true
+			c.Rep.fail(Finding{Rule: "R4", Key: key, Where: where, Plugin: p, Script: rs.Run.Script,
+				Msg:    fmt.Sprintf("plugin %s: for an input of this shape the emitted code does not type-check (%s): goderive exits 0 and the package no longer compiles", p, msg),
+				Detail: "abstract path: " + rs.Run.describe() + "\ntyped residual:\n" + src + "\nerrors:\n" + strings.Join(errs, "\n")})
+		}
+		c.Rep.analysed("typed_residuals:"+p, typed)
+		c.Rep.analysed("untyped_residuals:"+p, skipped)
+	}
+}
+
+var r4IdentRe = regexp.MustCompile(`\b(src|dst|this|that|object|v|k|list|m)(_[a-z_]+)*\b`)
+
+// r4Norm makes a type error independent of placeholder numbering and of the access path of the operand.
+func r4Norm(msg string) string {
+	msg = holeRe.ReplaceAllString(msg, "_")
+	if i := strings.Index(msg, " ("); i > 0 && strings.HasPrefix(msg, "cannot ") {
+		// keep the verb and the explanation, drop the operand text
+		j := strings.LastIndex(msg, ")")
+		if j > i {
+			verb := strings.Fields(msg)[:2]
+			msg = strings.Join(verb, " ") + " … " + strings.TrimSpace(msg[i:])
+		}
+	}
+	if len(msg) > 140 {
+		msg = msg[:140]
+	}
+	return msg
 }
